@@ -1083,7 +1083,13 @@ def sc_c08(env, t, v, cfg):
     if not slots:
         env.reach()
         return
+    # a second, long-lived handle on the same storage: every step is performed through one of the two and
+    # observed through both (a reference re-pointed through one handle must be seen through the other)
+    other = tg.build(t)._from_buffer(obj._buffer, obj._offset)
+    read_ok(env, t, other, exp, "C08 a view rebuilt before the history reads the holder")
+    handles = (obj, other)
     for stepno, st in enumerate(cfg["history"]):
+        actor = handles[stepno % 2]
         path, rt, rv = slots[(st[1] if len(st) > 1 else 0) % len(slots)]
         members = [rt[1]] if rt[0] == "ref" else list(rt[2])
         mt = members[(st[2] if len(st) > 2 else 0) % len(members)]
@@ -1095,7 +1101,7 @@ def sc_c08(env, t, v, cfg):
         if st[0] == "bind_existing":
             target = mcls(mv, _buffer=buf)
             m = env.mark()
-            V.set_at(t, obj, path, target)
+            V.set_at(t, actor, path, target)
             got = V.get_at(t, obj, path)
             env.check(got is not None and got.__class__.__name__ == mcls.__name__, what + ": reads back an object of the bound type")
             if got is not None:
@@ -1118,12 +1124,12 @@ def sc_c08(env, t, v, cfg):
         elif st[0] in ("bind_value", "bind_foreign"):
             m = env.mark()
             if st[0] == "bind_value":
-                V.set_at(t, obj, path, mv if rt[0] == "ref" else (mcls.__name__, mv))
+                V.set_at(t, actor, path, mv if rt[0] == "ref" else (mcls.__name__, mv))
                 foreign = None
             else:
                 fb = env.fresh(4096, tag=f"x{stepno}")
                 foreign = mcls(mv, _buffer=fb)
-                V.set_at(t, obj, path, foreign)
+                V.set_at(t, actor, path, foreign)
             got = V.get_at(t, obj, path)
             env.check(got is not None and got._buffer is obj._buffer, what + ": the referent lives in the holder's buffer")
             if got is not None:
@@ -1137,7 +1143,7 @@ def sc_c08(env, t, v, cfg):
                         V.set_at(mt, foreign, p2, other_scalar(lt2, x2, 1))
             exp = V.replace_at(t, exp, path, V.expected(mt, mv) if rt[0] == "ref" else (mcls.__name__, V.expected(mt, mv)))
         elif st[0] == "bind_null":
-            V.set_at(t, obj, path, None)
+            V.set_at(t, actor, path, None)
             got = V.get_at(t, obj, path)
             env.check(got is None, what + ": a null reference reads back as None")
             if rt[0] == "uref":
@@ -1154,6 +1160,7 @@ def sc_c08(env, t, v, cfg):
             cap0 = obj._buffer.capacity
             obj._buffer.allocate(n_)
         read_ok(env, t, obj, exp, what + ": the whole holder reads as expected afterwards")
+        read_ok(env, t, other, exp, what + ": the holder reads the same through the other long-lived handle")
         # every non-null reference resolves to a live object of the recorded member type inside its buffer
         for p3, rt3, _ in slots:
             got = V.get_at(t, obj, p3)
